@@ -234,6 +234,7 @@ def main(tier):
         'tools/py2coq.py (translator, fail closed)', 'harness/c06.py + harness/impl_c06.py (correspondence, oracle)'])
     broken = []
     if tfails:
+        run.cov['discharged'] = 0   # the compiled theorems are about a stale translation, not the current source
         broken.append({'kind': 'translation-failure', 'detail': tfails})
     elif not res['ok']:
         broken.append({'kind': 'broken-obligation', 'detail': first_error(res['log'])})
